@@ -89,7 +89,11 @@ class HLB(Harness):
         fl.X_flag = np.ones(npts, bool)
         self_.function_logger = fl
         ssi0 = min(0, 2 * k0 - 10) - (3 if p.get("ssi_stale") else 0)
-        self_.optim_state = dict(iter=None, search_count=sc0, search_size_integer=ssi0, tol_mesh=2.0 ** -19,
+        if p.get("ktol") is not None:
+            opts["tol_mesh"] = 2.0 ** p["ktol"]      # a user tolerance that is an exact power of two
+        # the tolerance "put on the mesh" exactly as _init_optim_state_ does (H-SB executes that code)
+        tol_on_mesh = float(opts["poll_mesh_multiplier"] ** np.ceil(np.log(opts["tol_mesh"]) / np.log(opts["poll_mesh_multiplier"])))
+        self_.optim_state = dict(iter=None, search_count=sc0, search_size_integer=ssi0, tol_mesh=tol_on_mesh,
                                  uncertainty_handling_level=level, lb=np.full((1, D), -3.0), ub=np.full((1, D), 3.0))
         rec = {}
 
@@ -184,7 +188,7 @@ class HLB(Harness):
         out.ob("iteration_bound", O.le(it1, maxit - 1))
         mesh1 = self_.optim_state["mesh_size"]
         if fin:
-            conds = {"max_fun_evals": O.ge(fc1, Bv), "max_iter": O.ge(it1, maxit - 1), "tol_mesh": mesh1 < self_.optim_state["tol_mesh"]}
+            conds = {"max_fun_evals": O.ge(fc1, Bv), "max_iter": O.ge(it1, maxit - 1), "tol_mesh": mesh1 < opts["tol_mesh"]}
             known_msg = [k for k in list(conds) + ["tol_fun"] if k in msg]
             out.ob("termination_message_names_a_condition", len(known_msg) == 1)
             for k in known_msg:
@@ -192,7 +196,7 @@ class HLB(Harness):
                     out.ob("termination_message_true", conds[k])
             out.ob("optim_state_message_recorded", self_.optim_state["termination_msg"] == msg)
         else:
-            out.ob("not_finished_means_no_condition_holds", O.And(O.lt(fc1, Bv), not (mesh1 < self_.optim_state["tol_mesh"])))
+            out.ob("not_finished_means_no_condition_holds", O.And(O.lt(fc1, Bv), not (mesh1 < tol_on_mesh)))
             S0 = (Bv - fc) + (maxit - it)
             S1 = (Bv - fc1) + (maxit - it1)
             f0 = O.Ite(O.gt(ss, 0), 1, 0)
